@@ -37,19 +37,23 @@ def digits(rnd, n, first_nonzero=False):
     return s
 
 
+NUM_CHEAP = [n for n in NUM_SPECIAL if len(n) < 40 and not re.search(rb"[eE][-+]?\d{3}", n)]
+
+
 def gen_number(rnd):
     r = rnd.random()
     if r < 0.3:
-        return rnd.choice(NUM_SPECIAL)
+        return rnd.choice(NUM_SPECIAL if rnd.random() < 0.04 else NUM_CHEAP)
     s = "-" if rnd.random() < 0.3 else ""
-    k = rnd.choice([1, 1, 2, 3, 5, 9, 10, 16, 17, 19, 20, 25, 40, 62])
+    k = rnd.choice([1, 1, 2, 3, 5, 9, 10, 16, 17, 19, 20, 25] + ([40, 62] if rnd.random() < 0.1 else []))
     s += "0" if rnd.random() < 0.15 else digits(rnd, k, True)
     if r < 0.55:
         return s.encode()
     if rnd.random() < 0.75:
         s += "." + digits(rnd, rnd.choice([1, 1, 2, 3, 6, 15, 17, 20, 30]))
     if rnd.random() < 0.6:
-        s += rnd.choice("eE") + rnd.choice(["", "+", "-"]) + str(rnd.choice([0, 1, 2, 5, 10, 15, 22, 23, 100, 290, 300, 307, 308, 310, 323, 324, 400]))
+        big = [100, 290, 300, 307, 308, 310, 323, 324, 400] if rnd.random() < 0.06 else []
+        s += rnd.choice("eE") + rnd.choice(["", "+", "-"]) + str(rnd.choice([0, 1, 2, 5, 10, 15, 22, 23, 30] + big))
     return s.encode()
 
 
@@ -241,8 +245,8 @@ def gen_docs(ctx, rnd):
         out.append(("valid", b"[" + n + b"]"))
     for lab, d in TOP_LEVEL_BAD:
         out.append((lab, d))
-    nvalid = 2500 if ctx.quick else 60000
-    ncorr = 120 if ctx.quick else 1500          # rounds over the corruption catalogue
+    nvalid = 4000 if ctx.quick else 60000
+    ncorr = 150 if ctx.quick else 1200          # rounds over the corruption catalogue
     for _ in range(nvalid):
         g = Doc(rnd)
         out.append(("valid", g.ser(g.value(rnd.choice([0, 1, 2, 3, 4, 6])))))
@@ -374,12 +378,58 @@ def gen_values(ctx, rnd):
         s = repr(f)
         out.append(("float", "(%s)" % s if s.startswith("-") else s))
     g = ValGen(rnd)
-    for _ in range(2500 if ctx.quick else 50000):
+    for _ in range(4000 if ctx.quick else 50000):
         out.append(("random", g.value(rnd.choice([0, 0, 1, 2, 3, 4, 6]))))
     for cp in list(range(0, 0x80)) + BMP + ASTRAL:      # every ASCII character on its own and inside a word
         out.append(("string", star_str(chr(cp))))
         out.append(("string", star_str("a" + chr(cp) + "b")))
     return out
+
+
+# ---------------------------------------------------------- independent anchor for the oracle
+def _no_const(name):
+    raise ValueError("constant %s is not JSON" % name)
+
+
+def py_enc(v):
+    """CPython value -> harness value encoding (None if it has none, e.g. unpaired surrogates)"""
+    if v is None:
+        return {"t": "none"}
+    if v is True or v is False:
+        return {"t": "bool", "v": v}
+    if isinstance(v, int):
+        if abs(v) < (1 << 30):
+            return {"t": "int", "v": v}
+        m, n = [], abs(v)
+        while n:
+            m.append(n & 32767)
+            n >>= 15
+        return {"t": "big", "neg": v < 0, "m": m}
+    if isinstance(v, float):
+        b = struct.unpack("<Q", struct.pack("<d", v))[0]
+        frac = b & ((1 << 52) - 1)
+        return {"t": "float", "s": b >> 63, "e": (b >> 52) & 0x7ff, "m": [(frac >> (15 * k)) & 32767 for k in range(4)]}
+    if isinstance(v, str):
+        return {"t": "str", "v": list(v.encode("utf-8"))}
+    if isinstance(v, list):
+        return {"t": "list", "v": [py_enc(x) for x in v]}
+    return {"t": "dict", "v": [[py_enc(k), py_enc(x)] for k, x in v.items()]}
+
+
+def py_opinion(doc):
+    """strict CPython json.loads as a second, independent JSON reader (used to validate JsonSpec, not the code under test)"""
+    try:
+        text = bytes(doc).decode("utf-8")
+    except UnicodeDecodeError:
+        return {"has": False, "valid": False, "hasv": False}
+    try:
+        v = json.loads(text, parse_constant=_no_const)
+    except (ValueError, RecursionError):
+        return {"has": True, "valid": False, "hasv": False}
+    try:
+        return {"has": True, "valid": True, "hasv": True, "v": py_enc(v)}
+    except (UnicodeEncodeError, OverflowError):
+        return {"has": True, "valid": True, "hasv": False}
 
 
 # -------------------------------------------------------------------------------- running
@@ -408,12 +458,13 @@ def outcome(o):
 
 def record(c, r):
     if c["c"] == "dec":
-        return {"id": c["id"], "c": "dec", "doc": c["doc"], "res": outcome(r.get("res")), "dflt": outcome(r.get("dflt"))}
+        return {"id": c["id"], "c": "dec", "doc": c["doc"], "res": outcome(r.get("res")), "dflt": outcome(r.get("dflt")),
+                "py": py_opinion(c["doc"])}
     return {"id": c["id"], "c": "enc", "x": outcome(r.get("x")), "enc": outcome(r.get("enc")), "back": outcome(r.get("back"))}
 
 
 def tlc_validate(ctx, files):
-    verdicts, checked = {}, 0
+    verdicts, checked, xval = {}, 0, []
     for f in files:
         r = ctx.tlc("C18Trace", "C18Trace.cfg", env={"VERIF_RECS": f}, timeout=3000, heap="14g", workers=vlib.NCPU,
                     tag="C18Trace-" + os.path.basename(f))
@@ -422,6 +473,9 @@ def tlc_validate(ctx, files):
             m = re.match(r'<<"VERDICT", (\d+), "([^"]*)">>', l)
             if m:
                 verdicts[int(m.group(1))] = m.group(2)
+            m = re.match(r'<<"XVAL", (\d+), "([^"]*)">>', l)
+            if m:
+                xval.append((int(m.group(1)), m.group(2)))
             m = re.match(r'<<"CHECKED", (-?\d+)>>', l)
             if m:
                 got = int(m.group(1))
@@ -430,6 +484,8 @@ def tlc_validate(ctx, files):
         checked += got
         ctx.states += r["states"]
         ctx.transitions += r["transitions"]
+    if xval:
+        raise vlib.MachineryError("the oracle JsonSpec disagrees with CPython's strict json.loads on records %s" % xval[:10])
     return verdicts, checked
 
 
@@ -462,6 +518,8 @@ def run(ctx):
         cases.append({"id": len(cases) + 1, "c": "enc", "label": lab, "src": src})
     ctx.log("generated %d cases" % len(cases))
     res = evaluate(ctx, cases)
+    ctx.tlc_ok("C18MC", "C18MC.cfg" if ctx.quick else "C18MCThorough.cfg", workers=12, heap="6g")
+    ctx.log("design check of JsonSpec (C18MC) passed")
     recs = [record(c, res[c["id"]]) for c in cases]
     files = []
     for k, sh in enumerate(vlib.shard(recs, max(1, (len(recs) + 59999) // 60000))):
